@@ -20,39 +20,46 @@ type Gen struct {
 	r *vlib.Run
 }
 
+// hit counts a generator choice in the evidence histogram (no run object in the child processes).
+func (x *Gen) hit(kind string) {
+	if x.r != nil {
+		x.r.Hit(kind)
+	}
+}
+
 // count encodes a count field: the true number n of following elements, or a lie about it.
 func (x *Gen) count(n int, elem uint64) []byte {
 	g := x.g
 	switch g.Intn(12) {
 	case 0:
-		x.r.Hit("count:nonminimal")
+		x.hit("count:nonminimal")
 		return vintForm(uint64(n), g.Pick(3, 5, 9))
 	case 1:
-		x.r.Hit("count:plus1")
+		x.hit("count:plus1")
 		return vint(uint64(n + 1))
 	case 2:
-		x.r.Hit("count:minus1")
+		x.hit("count:minus1")
 		if n > 0 {
 			return vint(uint64(n - 1))
 		}
 		return vint(1)
 	case 3:
-		x.r.Hit("count:wrap")
+		x.hit("count:wrap")
 		if c := wrapCount(elem, uint64(n)*elem); c != 0 && c != uint64(n) {
 			return vintForm(c+uint64(g.Intn(2))<<uint(64-bitsOf(elem)), 9)
 		}
 		return vintForm(uint64(n)|1<<62, 9)
 	case 4:
-		x.r.Hit("count:wrap-any")
+		x.hit("count:wrap-any")
 		return vintForm(wrapCount(elem, uint64(n)*elem+uint64(g.Intn(3))*4), 9)
 	case 5:
-		x.r.Hit("count:huge")
+		x.hit("count:huge")
 		return vintForm(g.U64()|1<<uint(40+g.Intn(24)), 9)
 	case 6:
-		x.r.Hit("count:truncated")
+		x.hit("count:truncated")
 		return []byte{byte(0xfd + g.Intn(3))}
 	default:
-		x.r.Hit("count:true")
+		x.hit("count:true")
 		return vint(uint64(n))
 	}
 }
@@ -372,8 +379,8 @@ func (x *Gen) Structured(cmd string) Case {
 			}
 		default: // exactly what was asked for
 		}
-		x.r.Hit(fmt.Sprintf("blocktxn:missing=%d", k))
-		x.r.Hit("blocktxn:supplied=" + []string{"nothing", "last-cut", "one-missing", "one-repeated-for-another", "all-the-same", "complete+repeat",
+		x.hit(fmt.Sprintf("blocktxn:missing=%d", k))
+		x.hit("blocktxn:supplied=" + []string{"nothing", "last-cut", "one-missing", "one-repeated-for-another", "all-the-same", "complete+repeat",
 			"unrequested-tx", "reversed", "exact", "exact", "exact", "exact"}[shape])
 		pl = cat(hash.Hash[:], x.countSmall(len(sup)), cat(sup...))
 		if g.Chance(1, 12) {
@@ -429,7 +436,7 @@ func (x *Gen) Structured(cmd string) Case {
 		} else {
 			pre += "," + add
 		}
-		x.r.Hit("gen:" + add)
+		x.hit("gen:" + add)
 	}
 	return Case{Cmd: cmd, Pl: H(pl), Pre: pre, Note: "gen"}
 }
